@@ -125,6 +125,16 @@ pub const ILL_TYPED_TEXTS: &[(&str, &str)] = &[
     ("enum pattern too few fields in for", "enum P { Of(u8, u8) }\npub fn main(ps: [P; 2], x: u8) -> u8 {\n  let mut s = x;\n  for P::Of(a) in ps {\n    s = s ^ a;\n  }\n  s\n}\n"),
     ("enum pattern no fields for tuple variant", "enum E { A, B(u8) }\npub fn main(e: E, x: u8) -> u8 {\n  match e {\n    E::A => x,\n    E::B() => x,\n  }\n}\n"),
     ("enum pattern nested too few fields", "enum E { A, B(u8, u8) }\npub fn main(t: (E, u8), x: u8) -> u8 {\n  match t {\n    (E::B(a), y) => a ^ y,\n    (_, y) => x ^ y,\n  }\n}\n"),
+    ("bool constant with +", "const B: bool = true + false;\npub fn main(x: bool) -> bool {\n  x ^ B\n}\n"),
+    ("bool constant with -", "const A: bool = true;\nconst B: bool = A - A;\npub fn main(x: bool) -> bool {\n  x ^ B\n}\n"),
+    ("bool constant with min", "const A: bool = P::A;\nconst B: bool = min(A, true);\npub fn main(x: bool) -> bool {\n  x ^ B\n}\n"),
+    ("bool constant with max", "const B: bool = max(false, true);\npub fn main(x: bool) -> bool {\n  x ^ B\n}\n"),
+    ("constant of an enum type", "enum Foo { B, D }\nconst C: Foo = A::B;\npub fn main(x: u8) -> u8 {\n  let c = C;\n  x\n}\n"),
+    ("constant of an enum type matched", "enum Foo { B, D }\nconst C: Foo = A::B;\npub fn main(x: u8) -> u8 {\n  match C {\n    Foo::B => x,\n    Foo::D => 0u8,\n  }\n}\n"),
+    ("constant of a struct type", "struct S { a: u8 }\nconst C: S = A::B;\npub fn main(x: u8) -> u8 {\n  x + C.a\n}\n"),
+    ("constant of a tuple type", "const C: (u8, bool) = A::B;\npub fn main(x: u8) -> u8 {\n  x + C.0\n}\n"),
+    ("constant of an array type", "const C: [u8; 2] = A::B;\npub fn main(x: u8) -> u8 {\n  x + C[0]\n}\n"),
+    ("constant of an unknown type", "const C: Nope = A::B;\npub fn main(x: u8) -> u8 {\n  x\n}\n"),
     ("enum pattern arity", "enum E { A, B(u8) }\npub fn main(e: E, x: u8) -> u8 {\n  match e {\n    E::A => x,\n    E::B(a, b) => a,\n  }\n}\n"),
     ("enum pattern of another enum", "enum E { A, B(u8) }\nenum F { A, B(u8) }\npub fn main(e: E, x: u8) -> u8 {\n  match e {\n    F::A => x,\n    F::B(a) => a,\n  }\n}\n"),
     ("struct pattern of another struct", "struct S { a: u8 }\nstruct T { a: u8 }\npub fn main(s: S, x: u8) -> u8 {\n  let T { a } = s;\n  a + x\n}\n"),
